@@ -20,7 +20,7 @@ func runC11(c *Ctx) {
 	c.Rule("C11-R2", "single consumer of the summary in checkRules; arrival-order independent folding", 4)
 	c.Rule("C11-R3", "no package-level stores and no stores into the shared rule/AST reachable from the workers", 3)
 	c.Rule("C11-R4", "guarded state touched by workers (C14-R4 tables)", 10)
-	c.Rule("C11-R5", "no map-order leaks in console/JSON output", 3)
+	c.Rule("C11-R5", "no map-order leaks in console/JSON output or log lines", 40)
 	defer c11WorkerCount(c)
 	defer c11PackageSlicesNotAppended(c, "C11-R3")
 
@@ -371,6 +371,53 @@ func runC11(c *Ctx) {
 		})
 		c.Check(bad == "", "C11-R5", fn[strings.LastIndex(fn, "/")+1:]+":no map iteration", fi.Decl.Pos(), "order comes from the sorted slice", "output is produced while ranging over a map at "+bad+" (random order)")
 	}
+	// nothing is logged or printed from inside a loop over a map, anywhere in
+	// the command or the reporters: the lines would come out in a random order
+	nOut := 0
+	for _, fi := range p.AllFuncs() {
+		if fi.Decl.Body == nil || p.IsTestFile(fi.Decl.Pos()) {
+			continue
+		}
+		rp := relPkg(fi.Pkg.PkgPath)
+		if rp != "cmd/pint" && rp != "internal/reporter" {
+			continue
+		}
+		finfo := fi.Pkg.TypesInfo
+		var walk func(n ast.Node, inMap token.Pos)
+		walk = func(n ast.Node, inMap token.Pos) {
+			ast.Inspect(n, func(m ast.Node) bool {
+				switch x := m.(type) {
+				case *ast.RangeStmt:
+					if _, isMap := finfo.TypeOf(x.X).Underlying().(*types.Map); isMap && x.Body != nil {
+						walk(x.Body, x.Pos())
+						return false
+					}
+				case *ast.CallExpr:
+					fn := Callee(finfo, x)
+					if fn == nil || fn.Pkg() == nil {
+						return true
+					}
+					isOut := false
+					switch fn.Pkg().Path() {
+					case "log/slog":
+						switch fn.Name() {
+						case "Info", "Warn", "Error", "Log", "InfoContext", "WarnContext", "ErrorContext":
+							isOut = true
+						}
+					case "fmt":
+						isOut = strings.HasPrefix(fn.Name(), "Print") || strings.HasPrefix(fn.Name(), "Fprint")
+					}
+					if isOut {
+						nOut++
+						c.Check(inMap == token.NoPos, "C11-R5", fi.Name+":output call not inside a loop over a map", x.Pos(), "ordered", "a log or print call runs once per iteration of the map loop at "+p.Pos(inMap)+": Go randomises map iteration, so the order of these lines differs from run to run")
+					}
+				}
+				return true
+			})
+		}
+		walk(fi.Decl.Body, token.NoPos)
+	}
+	c.Check(nOut >= 20, "C11-R5", "output calls of the command and the reporters enumerated", token.NoPos, itoa(nOut), "implausibly few output calls found ("+itoa(nOut)+")")
 	if gp := c.MustFunc("C11-R5", "internal/reporter.Summary.GetPrometheusDetails"); gp != nil {
 		ginfo := gp.Pkg.TypesInfo
 		fl := p.NewFlow(gp)
@@ -525,13 +572,35 @@ func c11Globals(c *Ctx, R string) {
 			if o == nil || rhs == nil {
 				return
 			}
+			// a literal whose slice or map field is filled with somebody
+			// else's slice (as is, or re-sliced) owns the struct but not
+			// the elements: "shallow"
+			litKind := func(cl *ast.CompositeLit) string {
+				for _, e := range cl.Elts {
+					kv, ok := e.(*ast.KeyValueExpr)
+					if !ok {
+						continue
+					}
+					switch info.TypeOf(kv.Value).Underlying().(type) {
+					case *types.Slice, *types.Map:
+						switch ast.Unparen(kv.Value).(type) {
+						case *ast.Ident, *ast.SelectorExpr, *ast.SliceExpr, *ast.IndexExpr:
+							if tv, ok := info.Types[kv.Value]; ok && tv.IsNil() {
+								continue
+							}
+							return "shallow"
+						}
+					}
+				}
+				return "literal"
+			}
 			switch r := ast.Unparen(rhs).(type) {
 			case *ast.UnaryExpr:
-				if _, isLit := r.X.(*ast.CompositeLit); isLit && r.Op == token.AND {
-					fresh[o] = "literal"
+				if cl, isLit := r.X.(*ast.CompositeLit); isLit && r.Op == token.AND {
+					fresh[o] = litKind(cl)
 				}
 			case *ast.CompositeLit:
-				fresh[o] = "literal"
+				fresh[o] = litKind(r)
 			case *ast.CallExpr:
 				if exprStr(r.Fun) == "new" || exprStr(r.Fun) == "make" {
 					fresh[o] = "literal"
@@ -649,7 +718,11 @@ func c11Globals(c *Ctx, R string) {
 				if !isVar || v.IsField() {
 					continue
 				}
+				_, indexStore := ast.Unparen(l).(*ast.IndexExpr)
 				kind, isFresh := fresh[ro]
+				if isFresh && kind == "shallow" && indexStore {
+					isFresh = false
+				}
 				if isFresh && (crossed == 0 || kind == "parsed") {
 					continue
 				}
@@ -688,7 +761,7 @@ func c11Globals(c *Ctx, R string) {
 									a = ast.Unparen(u.X)
 								}
 								if id, isID := a.(*ast.Ident); isID {
-									if _, f := getFresh(cs.Caller)[cs.Caller.Pkg.TypesInfo.Uses[id]]; f {
+									if k, f := getFresh(cs.Caller)[cs.Caller.Pkg.TypesInfo.Uses[id]]; f && !(k == "shallow" && indexStore) {
 										ok = true
 									}
 								}
